@@ -2,7 +2,6 @@ module github.com/aundis/formula
 
 go 1.18
 
-require (
-	github.com/ericlagergren/decimal v0.0.0-20221120152707-495c53812d05 // indirect
-	github.com/shopspring/decimal v1.3.1 // indirect
-)
+require github.com/ericlagergren/decimal v0.0.0-20221120152707-495c53812d05
+
+require github.com/shopspring/decimal v1.3.1 // indirect
